@@ -187,12 +187,13 @@ fn used_splits(len: usize) -> Vec<usize> {
     ks
 }
 
-fn check_bfs_pred<D: Order + OutNeighbors>(
+fn check_bfs_pred<D: Order + OutNeighbors + Clone>(
     g: &D,
     name: &str,
     m: &Model<()>,
     sources: &[usize],
     targets: &BTreeSet<usize>,
+    mk: &dyn Fn(&gen::Dg) -> D,
 ) -> Verdict {
     let n = m.order();
     let hops = m.hops(sources);
@@ -232,6 +233,13 @@ fn check_bfs_pred<D: Order + OutNeighbors>(
     )?;
 
 
+    if n <= 40 {
+        // clone / clone_from, also onto an iterator over a digraph of another order
+        crate::props::c02::clone_consistency(&format!("BfsPred<{name}>"), || BfsPred::new(g, sources.iter().copied()), items.len())?;
+        for alt in [mk(&gen::path_dg(n / 2)), mk(&gen::path_dg(n + 3)), g.clone()] {
+            crate::props::c02::clone_from_consistency(&format!("BfsPred<{name}>"), || BfsPred::new(g, sources.iter().copied()), || BfsPred::new(&alt, std::iter::once(0)), items.len())?;
+        }
+    }
     // analysis methods on an instance that was already stepped
     if n <= 40 {
         for k in used_splits(items.len()) {
@@ -417,12 +425,12 @@ impl Prop for C05 {
         let targets: BTreeSet<usize> = c.targets.iter().copied().collect();
         let s = &c.sources;
 
-        check_bfs_pred(&AdjacencyList::build(&ug), "AdjacencyList", &um, s, &targets)?;
-        check_bfs_pred(&AdjacencyMap::build(&ug), "AdjacencyMap", &um, s, &targets)?;
-        check_bfs_pred(&AdjacencyMatrix::build(&ug), "AdjacencyMatrix", &um, s, &targets)?;
-        check_bfs_pred(&EdgeList::build(&ug), "EdgeList", &um, s, &targets)?;
+        check_bfs_pred(&AdjacencyList::build(&ug), "AdjacencyList", &um, s, &targets, &|d| AdjacencyList::build(d))?;
+        check_bfs_pred(&AdjacencyMap::build(&ug), "AdjacencyMap", &um, s, &targets, &|d| AdjacencyMap::build(d))?;
+        check_bfs_pred(&AdjacencyMatrix::build(&ug), "AdjacencyMatrix", &um, s, &targets, &|d| AdjacencyMatrix::build(d))?;
+        check_bfs_pred(&EdgeList::build(&ug), "EdgeList", &um, s, &targets, &|d| EdgeList::build(d))?;
         let g = reprs::build_weighted(&c.g);
-        check_bfs_pred(&g, "AdjacencyListWeighted", &um, s, &targets)?;
+        check_bfs_pred(&g, "AdjacencyListWeighted", &um, s, &targets, &reprs::build_unit_weighted)?;
 
         // Dijkstra
         let reference = wm.walk_dp(s);
@@ -460,6 +468,12 @@ impl Prop for C05 {
         )?;
 
 
+        if n <= 40 {
+            crate::props::c02::clone_consistency("DijkstraPred", || DijkstraPred::new(&g, s.iter().copied()), items.len())?;
+            for alt in [reprs::build_unit_weighted(&gen::path_dg(n / 2)), reprs::build_unit_weighted(&gen::path_dg(n + 3)), g.clone()] {
+                crate::props::c02::clone_from_consistency("DijkstraPred", || DijkstraPred::new(&g, s.iter().copied()), || DijkstraPred::new(&alt, std::iter::once(0)), items.len())?;
+            }
+        }
         if n <= 40 {
             for k in used_splits(items.len()) {
                 let mut it = DijkstraPred::new(&g, s.iter().copied());
